@@ -7,4 +7,4 @@ for d in seeded/*/; do
   n=$(basename "$d")
   ids=$(python3 -c "import json,sys; m=json.load(open('$d/meta.json')); print(' '.join(m.get('caught_by') or [m['property']]))")
   echo "$n $ids"
-done | xargs -P "$P" -L 1 sh -c 'n="$0"; shift 0; ids="$@"; out=$(tools/try_mutant.sh seeded/$n/patch.diff $ids 2>&1 | cut -c1-60 | tr "\n" " "); echo "$n: $out"'
+done | xargs -P "$P" -L 1 sh -c 'n="$0"; shift 0; ids="$@"; out=$(tools/try_mutant.sh $PWD/seeded/$n/patch.diff $ids 2>&1 | cut -c1-60 | tr "\n" " "); echo "$n: $out"'
